@@ -83,6 +83,9 @@ class Lithium:
         Returns:
             0 for successful reduction
         """
+        # what an earlier run on this object ended with is not this run's business
+        self.last_interesting = None
+
         if hasattr(self.condition_script, "init"):
             cast(Any, self.condition_script).init(self.condition_args)
 
